@@ -67,7 +67,26 @@ var seamsS2 = Seams{Sync: "d2/lazymap,d2", MapOrder: "d2", Add: "overlayfiles/d2
 
 var props = map[string]*PropSpec{}
 
+// onBubbleKernel is a token-kernel batch once more on back end B's bubble kernel (see reg)
+func onBubbleKernel(b Batch, quick, thorough int) Batch {
+	b.Bubble, b.Tags = true, "bkern"
+	b.Quick, b.Thorough = quick, thorough
+	b.Stub = append([]string{"which goroutine runs next: seeded Gosched coin at every shim point, seeded run queue and wake-up preemption (bubble kernel, sim/kern bkern.go)"}, b.Stub...)
+	return b
+}
+
 func reg(p *PropSpec) {
+	// S1 / S2 batches of C17 and C19 get a twin on the bubble kernel as well
+	switch p.ID {
+	case "C17", "C19":
+		n := len(p.Batches)
+		for i := 0; i < n; i++ {
+			b := p.Batches[i]
+			if (b.Pkg == "scen/s1" || b.Pkg == "scen/s2") && b.Module == "" && !b.Bubble {
+				p.Batches = append(p.Batches, onBubbleKernel(b, b.Quick/4, b.Thorough/5))
+			}
+		}
+	}
 	// Every S4 batch (generated client -> simulated HTTP -> generated server) of these properties is mirrored
 	// against the ROOT module: its own generator, runtime and generated family, same scenario sources with the
 	// import paths rewritten (cmd/vcheck rootTransform). C09 is a v2-only property by statement.
